@@ -6,11 +6,13 @@ import Juniper.Pinned.Heap
 
 namespace Juniper.Props.PinHeap
 
+theorem pin_container_xheap_Heap_Grow_ok : Juniper.Gen.PinHeap.pin_container_xheap_Heap_Grow = Juniper.Pinned.Heap.pin_container_xheap_Heap_Grow := by rfl
 theorem pin_container_xheap_Heap_Iterate_ok : Juniper.Gen.PinHeap.pin_container_xheap_Heap_Iterate = Juniper.Pinned.Heap.pin_container_xheap_Heap_Iterate := by rfl
 theorem pin_container_xheap_Heap_Len_ok : Juniper.Gen.PinHeap.pin_container_xheap_Heap_Len = Juniper.Pinned.Heap.pin_container_xheap_Heap_Len := by rfl
 theorem pin_container_xheap_Heap_Peek_ok : Juniper.Gen.PinHeap.pin_container_xheap_Heap_Peek = Juniper.Pinned.Heap.pin_container_xheap_Heap_Peek := by rfl
 theorem pin_container_xheap_Heap_Pop_ok : Juniper.Gen.PinHeap.pin_container_xheap_Heap_Pop = Juniper.Pinned.Heap.pin_container_xheap_Heap_Pop := by rfl
 theorem pin_container_xheap_Heap_Push_ok : Juniper.Gen.PinHeap.pin_container_xheap_Heap_Push = Juniper.Pinned.Heap.pin_container_xheap_Heap_Push := by rfl
+theorem pin_container_xheap_Heap_Shrink_ok : Juniper.Gen.PinHeap.pin_container_xheap_Heap_Shrink = Juniper.Pinned.Heap.pin_container_xheap_Heap_Shrink := by rfl
 theorem pin_container_xheap_New_ok : Juniper.Gen.PinHeap.pin_container_xheap_New = Juniper.Pinned.Heap.pin_container_xheap_New := by rfl
 theorem pin_container_xheap_NewCmp_ok : Juniper.Gen.PinHeap.pin_container_xheap_NewCmp = Juniper.Pinned.Heap.pin_container_xheap_NewCmp := by rfl
 theorem pin_container_xheap_NewPriorityQueue_ok : Juniper.Gen.PinHeap.pin_container_xheap_NewPriorityQueue = Juniper.Pinned.Heap.pin_container_xheap_NewPriorityQueue := by rfl
